@@ -21,6 +21,9 @@
 //  7. reload family (reload.go): a real frpc is reloaded from plugin credentials A to B (static_file,
 //     http_proxy, socks5); fresh connections and connections opened before the reload must not be served
 //     with the replaced credentials.
+//  8. pool-key family (poolkey.go): requests without / with wrong credentials whose Host (or absolute-form /
+//     CONNECT authority) spells the reverse proxy's backend-pool key of a protected route, for a range of
+//     route ids, right after a legitimate request left an idle pooled connection.
 package main
 
 import (
@@ -42,16 +45,17 @@ var specs []spec
 
 // spec is one generated case: exactly one of the pointers is set.
 type spec struct {
-	Vhost  *vhostSpec  `json:"vhost,omitempty"`
-	H2     *h2Spec     `json:"h2c,omitempty"`
-	Mux    *muxSpec    `json:"tcpmux,omitempty"`
-	HP     *hpSpec     `json:"http_proxy,omitempty"`
-	Socks  *socksSpec  `json:"socks5,omitempty"`
-	Static *staticSpec `json:"static_file,omitempty"`
-	Web    *webSpec    `json:"web,omitempty"`
-	Seq    *seqSpec    `json:"sequence,omitempty"`
-	Race   *raceSpec   `json:"route_change_while_dialing,omitempty"`
-	Reload *reloadSpec `json:"plugin_reload,omitempty"`
+	Vhost   *vhostSpec   `json:"vhost,omitempty"`
+	H2      *h2Spec      `json:"h2c,omitempty"`
+	Mux     *muxSpec     `json:"tcpmux,omitempty"`
+	HP      *hpSpec      `json:"http_proxy,omitempty"`
+	Socks   *socksSpec   `json:"socks5,omitempty"`
+	Static  *staticSpec  `json:"static_file,omitempty"`
+	Web     *webSpec     `json:"web,omitempty"`
+	Seq     *seqSpec     `json:"sequence,omitempty"`
+	Race    *raceSpec    `json:"route_change_while_dialing,omitempty"`
+	Reload  *reloadSpec  `json:"plugin_reload,omitempty"`
+	PoolKey *poolKeySpec `json:"pool_key_host,omitempty"`
 }
 
 // pending: what every tag of the run carried, for the end-of-run sweep over the backend logs
@@ -154,6 +158,8 @@ func main() {
 			runRace(c, s.Race)
 		case s.Reload != nil:
 			runReload(c, s.Reload)
+		case s.PoolKey != nil:
+			runPoolKey(c, s.PoolKey)
 		}
 	})
 
@@ -214,6 +220,8 @@ func surfaceOf(s spec) string {
 		return "vhost-http/route-change-while-dialing"
 	case s.Reload != nil:
 		return "plugin-reload/" + s.Reload.Kind
+	case s.PoolKey != nil:
+		return "vhost-http/pool-key-host"
 	}
 	return "?"
 }
@@ -240,6 +248,7 @@ func generate() []spec {
 	out = append(out, genSeq(run.RandFor("generate-sequences", 0))...)
 	out = append(out, genRace(run.RandFor("generate-race", 0))...)
 	out = append(out, genReload(run.RandFor("generate-reload", 0))...)
+	out = append(out, genPoolKey(run.RandFor("generate-poolkey", 0))...)
 	// interleave the surfaces (the ones with a 200 ms failure delay overlap with the fast ones)
 	rng.Shuffle(len(out), func(i, j int) { out[i], out[j] = out[j], out[i] })
 	return out
